@@ -182,6 +182,7 @@ class Job:
         if self.model:
             s.append(os.path.join(VERIF, "model", "posix_model.c"))
         s += [os.path.join(VERIF, x) for x in self.extra_src]
+        s.append(os.path.join(VERIF, "model", "libc_extra.c"))
         return s
 
     def cflag_list(self, prop, workdir, native):
@@ -305,7 +306,8 @@ DEFAULT_LOOP_RULES = [
     (r"^reproc_drain ", lambda j: j.params.get("drain_iters", 8)),
     (r"num_sources|num_pipes", lambda j: 4 * j.params.get("n_sources", 1) + 2),
     (r"ARRAY_SIZE\((redirect|actions)\)", 4),
-    (r"^(strlen|strcpy|strchr|strcmp|strncmp|memcpy|memset|memmove|wcslen|wcscpy|wcschr) ",
+    (r"^(strlen|strcpy|strchr|strcmp|strncmp|memcpy|memset|memmove|wcslen|wcscpy|wcschr|strcspn|strspn|strpbrk|strnlen|"
+     r"memrchr|stpcpy|strrchr|strncpy|memchr|strstr) ",
      lambda j: j.params.get("str_max", 8) + 2),
     (r"<builtin-library", lambda j: j.params.get("str_max", 8) + 2),
     (r"while \(0\)|do \{", 2),
